@@ -2,6 +2,7 @@ package go_clipper2
 
 import (
 	"math"
+	"math/bits"
 
 	"github.com/govalues/decimal"
 )
@@ -38,20 +39,48 @@ func Area64(path Path64) float64 {
 		return 0
 	}
 
-	var a int64 = 0
+	// The shoelace terms are accumulated exactly in a 128-bit two's complement sum (hi, lo):
+	// individual terms reach 2^124 for coordinates up to MaxCoord and int64 partial sums
+	// overflow already at a few vertices of magnitude 2^29.
+	var hi int64
+	var lo uint64
 	prevPt := path[len(path)-1]
 	for _, pt := range path {
-		a += (prevPt.Y + pt.Y) * (prevPt.X - pt.X)
+		th, tl := mulInt64(prevPt.Y+pt.Y, prevPt.X-pt.X)
+		var carry uint64
+		lo, carry = bits.Add64(lo, tl, 0)
+		hi += th + int64(carry)
 		prevPt = pt
 	}
 
-	vA, _ := decimal.New(a, 0)
-	cV, _ := decimal.NewFromFloat64(0.5)
+	neg := hi < 0
+	uhi, ulo := uint64(hi), lo
+	if neg {
+		ulo = ^ulo + 1
+		uhi = ^uhi
+		if ulo == 0 {
+			uhi++
+		}
+	}
+	res := math.Ldexp(float64(uhi), 64) + float64(ulo)
+	if neg {
+		res = -res
+	}
 
-	mV, _ := vA.Mul(cV)
-	res, _ := mV.Float64()
+	return res * 0.5
+}
 
-	return res
+// mulInt64 returns the exact signed 128-bit product of a and b as (hi, lo) in two's complement.
+func mulInt64(a, b int64) (int64, uint64) {
+	hi, lo := bits.Mul64(absUint64(a), absUint64(b))
+	if (a < 0) != (b < 0) {
+		lo = ^lo + 1
+		hi = ^hi
+		if lo == 0 {
+			hi++
+		}
+	}
+	return int64(hi), lo
 }
 
 func AreaD(path PathD) float64 {
